@@ -12,7 +12,7 @@ def allowed (t : Tid) (p : Prog) : Bool :=
   | .D, .dispLoop => true | .D, .handler _ _ => true | .D, .inClose => true
   | .L, .monStart => true | .L, .monLoop => true
   | .M, .monStart => true | .M, .monLoop => true | .M, .inClose => true
-  | .C, .closeEntry _ => true | .C, .inClose => true
+  | .C, .closeEntry .closingTail => true | .C, .inClose => true
   | .V, .vget => true
   | .U _, .inClose => true | .U u, .recvWait u' => u == u' | .U u, .loginWait u' => u == u' | .U _, .idle => true
   | _, _ => false
@@ -22,18 +22,32 @@ def stageOf : Tid → Option Nat
   | .D => some 0 | .V => some 1 | .L => some 2 | .M => some 3 | .R => some 4
   | _ => none
 
-theorem stopTarget_stageOf (j : Nat) (x : Tid) : stopTarget j = some x ↔ stageOf x = some j := by
-  constructor
-  · intro h
-    unfold stopTarget at h
-    split at h <;> simp at h <;> subst h <;> rfl
-  · intro h
-    cases x <;> simp [stageOf] at h <;> subst h <;> rfl
-
 theorem stageOf_inj {x y : Tid} {j : Nat} (hx : stageOf x = some j) (hy : stageOf y = some j) : x = y := by
   cases x <;> cases y <;> simp_all [stageOf] <;> omega
 
 theorem stageOf_user (u : Nat) (j : Nat) : stageOf (.U u) ≠ some j := by simp [stageOf]
+theorem stageOf_C (j : Nat) : stageOf .C ≠ some j := by simp [stageOf]
+theorem stageOf_lt {x : Tid} {j : Nat} (h : stageOf x = some j) : j ≤ 4 := by
+  cases x <;> simp [stageOf] at h <;> omega
+
+/-- which task may carry which continuation -/
+def contOk (t : Tid) : Cont → Prop
+  | .readerTail => t = .R
+  | .handlerTail _ => t = .D
+  | .monitorTail => t = .M
+  | .closingTail => t = .C
+  | .userTail u _ => t = .U u
+
+theorem contOk_allowed {t : Tid} {c : Cont} (h : contOk t c) : allowed t .inClose = true := by
+  cases c <;> simp [contOk] at h <;> subst h <;> rfl
+
+/-- stop target `x` needs no more stopping by closer `t`: it is the closer itself, it has ended, or — the reader only —
+    it stopped itself (`close()` returned to it while another task was closing) and is about to leave its loop -/
+def okDone (s : St) (t x : Tid) : Prop :=
+  x = t ∨ alive (s.status x) = false ∨ (x = .R ∧ s.status .R = .ready)
+
+/-- the closer, if the close body or callback is in progress -/
+def isCloser (s : St) (t : Tid) : Prop := (∃ pc c, s.cstage = .body t pc c) ∨ (∃ k c, s.cstage = .cb t k c)
 
 structure InvB (s : St) : Prop where
   /-- a live task runs one of its own programs -/
@@ -42,24 +56,28 @@ structure InvB (s : St) : Prop where
   waitq : ∀ t, s.status t = .waitQ → t = .D ∨ t = .V
   /-- a task waits for another task only as the closer or as a user call for the receive helper -/
   waitt : ∀ t y, s.status t = .waitT y → (∃ pc c, s.cstage = .body t pc c) ∨ (∃ u, t = .U u ∧ y = .V)
-  /-- close body in progress -/
-  bprog : ∀ t pc c, s.cstage = .body t pc c → s.prog t = .inClose ∧ 1 ≤ pc ∧ pc ≤ 5 ∧ alive (s.status t) = true ∧ s.status t ≠ .waitQ
+  /-- nobody cancels the closing task -/
+  ccan : s.status .C ≠ .cancelled
+  /-- close body in progress: the closer is alive and not in `queue.get()` -/
+  bst : ∀ t pc c, s.cstage = .body t pc c →
+    s.prog t = .inClose ∧ 1 ≤ pc ∧ pc ≤ 5 ∧ alive (s.status t) = true ∧ s.status t ≠ .waitQ ∧ contOk t c
   /-- the closer awaits the cancelled target of the previous stage -/
   bwait : ∀ t pc c x, s.cstage = .body t pc c → s.status t = .waitT x →
     stageOf x = some (pc - 1) ∧ s.status x = .cancelled
-  /-- earlier targets have ended (or are the closer itself); so has the previous one once the closer is runnable again -/
+  /-- earlier targets need no more stopping; neither does the previous one once the closer is runnable again -/
   bdone : ∀ t pc c x j, s.cstage = .body t pc c → stageOf x = some j →
-    (j + 1 < pc ∨ (j + 1 = pc ∧ ∀ y, s.status t ≠ .waitT y)) → x = t ∨ alive (s.status x) = false
-  /-- inside the close callback: the closer is runnable; every stop target has ended (or is the closer) -/
+    (j + 1 < pc ∨ (j + 1 = pc ∧ ∀ y, s.status t ≠ .waitT y)) → okDone s t x
+  /-- inside the close callback: the closer is runnable; no stop target needs stopping any more -/
   cb : ∀ t k c, s.cstage = .cb t k c →
-    s.prog t = .inClose ∧ (s.status t = .ready ∨ s.status t = .cancelled) ∧
-    (∀ x j, stageOf x = some j → x = t ∨ alive (s.status x) = false)
-  /-- close complete: monitors and receive helper have ended; dispatcher / reader have ended or (if one of them ran the
-      close) are one step from ending -/
+    s.prog t = .inClose ∧ (s.status t = .ready ∨ s.status t = .cancelled) ∧ contOk t c ∧
+    (∀ x j, stageOf x = some j → okDone s t x)
+  /-- a stopped reader is the closer, has ended, or is about to leave its loop -/
+  rs : s.rStopped = true → isCloser s .R ∨ alive (s.status .R) = false ∨ s.status .R = .ready
+  /-- close complete: monitors and receive helper have ended; dispatcher / reader have ended or are runnable and about to end -/
   fin : (s.cstage = .finished ∨ s.cstage = .aborted) →
     alive (s.status .L) = false ∧ alive (s.status .M) = false ∧ alive (s.status .V) = false ∧
-    (alive (s.status .D) = false ∨ (s.status .D = .ready ∧ s.prog .D = .dispLoop)) ∧
-    (alive (s.status .R) = false ∨ (s.status .R = .ready ∧ s.prog .R = .readerLoop ∧ s.rStopped = true))
+    (alive (s.status .D) = false ∨ s.status .D = .ready) ∧
+    (alive (s.status .R) = false ∨ s.status .R = .ready)
 
 /-- the part of the state `InvB` reads -/
 def bcore (s : St) : (Tid → Status) × (Tid → Prog) × CStage × Bool := (s.status, s.prog, s.cstage, s.rStopped)
@@ -67,63 +85,1538 @@ def bcore (s : St) : (Tid → Status) × (Tid → Prog) × CStage × Bool := (s.
 theorem InvB.of_bcore {s s' : St} (h : bcore s' = bcore s) (i : InvB s) : InvB s' := by
   simp only [bcore, Prod.mk.injEq] at h
   obtain ⟨h1, h2, h3, h4⟩ := h
-  exact ⟨by rw [h1, h2]; exact i.typ, by rw [h1]; exact i.waitq, by rw [h1, h3]; exact i.waitt,
-    by rw [h1, h2, h3]; exact i.bprog, by rw [h1, h3]; exact i.bwait, by rw [h1, h3]; exact i.bdone,
-    by rw [h1, h2, h3]; exact i.cb, by rw [h1, h2, h3, h4]; exact i.fin⟩
+  obtain ⟨typ, waitq, waitt, ccan, bst, bwait, bdone, cb, rs, fin⟩ := i
+  refine ⟨?_, ?_, ?_, ?_, ?_, ?_, ?_, ?_, ?_, ?_⟩
+  · rw [h1, h2]; exact typ
+  · rw [h1]; exact waitq
+  · rw [h1, h3]; exact waitt
+  · rw [h1]; exact ccan
+  · rw [h1, h2, h3]; exact bst
+  · rw [h1, h3]; exact bwait
+  · unfold okDone; rw [h1, h3]; exact bdone
+  · unfold okDone; rw [h1, h2, h3]; exact cb
+  · unfold isCloser; rw [h1, h3, h4]; exact rs
+  · rw [h1, h3]; exact fin
 
-theorem InvB.emit {s : St} (i : InvB s) (o : Obs) : InvB (s.emit o) := InvB.of_bcore (s := s) rfl i
+macro "ib" i:ident : tactic => `(tactic| first | exact $i | (refine InvB.of_bcore ?_ $i; rfl))
+
+theorem InvB.emit {s : St} {o : Obs} (i : InvB s) : InvB (s.emit o) := InvB.of_bcore (s := s) rfl i
+
+theorem not_closer_of_prog {s : St} (i : InvB s) {t : Tid} (h : s.prog t ≠ .inClose) : ¬ isCloser s t := by
+  rintro (⟨pc, c, hb⟩ | ⟨k, c, hc⟩)
+  · exact h (i.bst t pc c hb).1
+  · exact h (i.cb t k c hc).1
+
+theorem finish_status (s : St) (t x : Tid) :
+    (s.finish t).status x = if x = t then .done else if s.status x = .waitT t then .ready else s.status x := rfl
+
+theorem dead_finish {s : St} {x : Tid} (t : Tid) (h : alive (s.status x) = false) :
+    alive ((s.finish t).status x) = false := by
+  rw [finish_status]
+  by_cases hxt : x = t
+  · simp [hxt, alive]
+  · have : s.status x ≠ .waitT t := by intro e; rw [e] at h; simp [alive] at h
+    simp only [hxt, this, if_false]; exact h
+
+theorem ready_finish {s : St} {x : Tid} (t : Tid) (h : s.status x = .ready) :
+    alive ((s.finish t).status x) = false ∨ (s.finish t).status x = .ready := by
+  rw [finish_status]
+  by_cases hxt : x = t
+  · left; simp [hxt, alive]
+  · right; simp [hxt, h]
+
+theorem okDone_finish {s : St} {t' x : Tid} (t : Tid) (h : okDone s t' x) : okDone (s.finish t) t' x := by
+  rcases h with h | h | ⟨h1, h2⟩
+  · exact Or.inl h
+  · exact Or.inr (Or.inl (dead_finish t h))
+  · subst h1
+    rcases ready_finish t h2 with h | h
+    · exact Or.inr (Or.inl h)
+    · exact Or.inr (Or.inr ⟨rfl, h⟩)
 
 /-- a task ends: it was not the closer in the middle of the body, nor inside the close callback -/
-theorem InvB.finish {s : St} (i : InvB s) (t : Tid)
-    (h1 : ∀ pc c, s.cstage ≠ .body t pc c) (h2 : ∀ k c, s.cstage ≠ .cb t k c) : InvB (s.finish t) := by
-  obtain ⟨typ, waitq, waitt, bprog, bwait, bdone, cb, fin⟩ := i
-  refine ⟨?_, ?_, ?_, ?_, ?_, ?_, ?_, ?_⟩
-  · intro x hx; simp only [St.finish] at hx ⊢; grind [alive]
-  · intro x hx; simp only [St.finish] at hx; grind
-  · intro x y hx; simp only [St.finish] at hx ⊢; grind
-  · intro t' pc c hc
-    have := bprog t' pc c hc
-    have hne : t' ≠ t := by intro e; subst e; exact h1 pc c hc
-    simp only [St.finish, hne, if_false]
-    grind [alive]
-  · intro t' pc c x hc hw
-    have hne : t' ≠ t := by intro e; subst e; exact h1 pc c hc
-    simp only [St.finish, hne, if_false] at hw ⊢
-    have := bwait t' pc c x hc
-    grind
-  · intro t' pc c x j hc hs hj
-    have hne : t' ≠ t := by intro e; subst e; exact h1 pc c hc
-    have hc' : s.cstage = .body t' pc c := hc
+theorem InvB.finish {s : St} (i : InvB s) (t : Tid) (hnc : ¬ isCloser s t) : InvB (s.finish t) := by
+  have h1 : ∀ pc c, s.cstage ≠ .body t pc c := fun pc c h => hnc (Or.inl ⟨pc, c, h⟩)
+  have h2 : ∀ k c, s.cstage ≠ .cb t k c := fun k c h => hnc (Or.inr ⟨k, c, h⟩)
+  obtain ⟨typ, waitq, waitt, ccan, bst, bwait, bdone, cb, rs, fin⟩ := i
+  refine ⟨?_, ?_, ?_, ?_, ?_, ?_, ?_, ?_, ?_, ?_⟩
+  · intro x hx
+    rw [finish_status] at hx
+    show allowed x (s.prog x) = true
     by_cases hxt : x = t
-    · right; simp [St.finish, hxt, alive]
+    · simp [hxt, alive] at hx
+    · by_cases hw : s.status x = .waitT t
+      · exact typ x (by rw [hw]; rfl)
+      · simp only [hxt, hw, if_false] at hx; exact typ x hx
+  · intro x hx
+    rw [finish_status] at hx
+    by_cases hxt : x = t
+    · simp [hxt] at hx
+    · by_cases hw : s.status x = .waitT t
+      · simp [hxt, hw] at hx
+      · simp only [hxt, hw, if_false] at hx; exact waitq x hx
+  · intro x y hx
+    rw [finish_status] at hx
+    show (∃ pc c, s.cstage = .body x pc c) ∨ _
+    by_cases hxt : x = t
+    · simp [hxt] at hx
+    · by_cases hw : s.status x = .waitT t
+      · simp [hxt, hw] at hx
+      · simp only [hxt, hw, if_false] at hx; exact waitt x y hx
+  · rw [finish_status]
+    by_cases hxt : Tid.C = t
+    · simp [hxt]
+    · by_cases hw : s.status .C = .waitT t
+      · simp [hxt, hw]
+      · simp only [hxt, hw, if_false]; exact ccan
+  · intro t' pc c hc
+    have hc' : s.cstage = .body t' pc c := hc
+    have hne : t' ≠ t := by intro e; subst e; exact h1 pc c hc'
+    obtain ⟨a, b, c', d, e, f⟩ := bst t' pc c hc'
+    refine ⟨a, b, c', ?_, ?_, f⟩
+    · rw [finish_status]; simp only [hne, if_false]; split
+      · rfl
+      · exact d
+    · rw [finish_status]; simp only [hne, if_false]; split
+      · simp
+      · exact e
+  · intro t' pc c x hc hw
+    have hc' : s.cstage = .body t' pc c := hc
+    have hne : t' ≠ t := by intro e; subst e; exact h1 pc c hc'
+    rw [finish_status] at hw
+    simp only [hne, if_false] at hw
+    by_cases hw' : s.status t' = .waitT t
+    · simp [hw'] at hw
+    · simp only [hw', if_false] at hw
+      obtain ⟨a, b⟩ := bwait t' pc c x hc' hw
+      have hxt : x ≠ t := by
+        intro e; subst e; exact hw' hw
+      refine ⟨a, ?_⟩
+      rw [finish_status]; simp [hxt, b]
+  · intro t' pc c x j hc hs hj
+    have hc' : s.cstage = .body t' pc c := hc
+    have hne : t' ≠ t := by intro e; subst e; exact h1 pc c hc'
+    by_cases hxt : x = t
+    · right; left; rw [finish_status]; simp [hxt, alive]
     · by_cases hxw : s.status x = .waitT t
-      · -- a stop target that waits for a task is the closer itself
-        rcases waitt x t hxw with ⟨pc', c', hb⟩ | ⟨u, hu, _⟩
+      · rcases waitt x t hxw with ⟨pc', c', hb⟩ | ⟨u, hu, _⟩
         · left; rw [hc'] at hb; injection hb with e _ _; exact e.symm
         · subst hu; exact absurd hs (stageOf_user u j)
-      · have hsx : (s.finish t).status x = s.status x := by simp [St.finish, hxt, hxw]
-        rw [hsx]
+      · apply okDone_finish
         apply bdone t' pc c x j hc' hs
         rcases hj with hj | ⟨hj, hy⟩
         · exact Or.inl hj
         · right
           refine ⟨hj, ?_⟩
           by_cases hw : s.status t' = .waitT t
-          · -- then `t` is the target of stage `j`, hence `x = t`: excluded
-            have := (bwait t' pc c t hc' hw).1
+          · have := (bwait t' pc c t hc' hw).1
             have hjt : stageOf t = some j := by rw [this]; congr 1; omega
             exact absurd (stageOf_inj hs hjt) hxt
           · intro y
             have := hy y
-            simpa [St.finish, hne, hw] using this
+            rw [finish_status] at this
+            simpa [hne, hw] using this
   · intro t' k c hc
-    have := cb t' k c hc
-    have hne : t' ≠ t := by intro e; subst e; exact h2 k c hc
-    simp only [St.finish, hne, if_false]
-    grind [alive]
+    have hc' : s.cstage = .cb t' k c := hc
+    have hne : t' ≠ t := by intro e; subst e; exact h2 k c hc'
+    obtain ⟨a, b, cok, d⟩ := cb t' k c hc'
+    refine ⟨a, ?_, cok, fun x j hs => okDone_finish t (d x j hs)⟩
+    rw [finish_status]; simp only [hne, if_false]
+    have : s.status t' ≠ .waitT t := by rcases b with b | b <;> rw [b] <;> simp
+    simp only [this, if_false]; exact b
+  · intro hr
+    rcases rs hr with h | h | h
+    · exact Or.inl h
+    · exact Or.inr (Or.inl (dead_finish t h))
+    · exact Or.inr (ready_finish t h)
   · intro hc
-    have := fin hc
-    simp only [St.finish]
-    grind [alive]
+    obtain ⟨a, b, c, d, e⟩ := fin hc
+    have key2 : ∀ x, (alive (s.status x) = false ∨ s.status x = .ready) →
+        (alive ((s.finish t).status x) = false ∨ (s.finish t).status x = .ready) := by
+      intro x hx
+      rcases hx with hx | hx
+      · exact Or.inl (dead_finish t hx)
+      · exact ready_finish t hx
+    exact ⟨dead_finish t a, dead_finish t b, dead_finish t c, key2 _ d, key2 _ e⟩
+
+theorem setStatus_status (s : St) (t y : Tid) (x : Status) :
+    (s.setStatus t x).status y = if y = t then x else s.status y := rfl
+
+theorem okDone_restatus {s : St} {t' x0 : Tid} {t : Tid} {x : Status} (hold : alive (s.status t) = true)
+    (hR : t = .R → x = .ready) (h : okDone s t' x0) : okDone (s.setStatus t x) t' x0 := by
+  rcases h with h | h | ⟨h1, h2⟩
+  · exact Or.inl h
+  · right; left
+    rw [setStatus_status]
+    by_cases hx0 : x0 = t
+    · subst hx0; rw [hold] at h; contradiction
+    · simp only [hx0, if_false]; exact h
+  · subst h1
+    right; right
+    refine ⟨rfl, ?_⟩
+    rw [setStatus_status]
+    by_cases hRt : Tid.R = t
+    · simp only [hRt, if_true]; exact hR hRt.symm
+    · simp only [hRt, if_false]; exact h2
+
+/-- a live task (not waiting for a task) changes to another live status -/
+theorem InvB.restatus {s : St} (i : InvB s) (t : Tid) (x : Status)
+    (hold : alive (s.status t) = true) (hnw : ∀ y, s.status t ≠ .waitT y)
+    (hx : alive x = true) (hxw : ∀ y, x ≠ .waitT y)
+    (hq : x = .waitQ → t = .D ∨ t = .V) (hC : t = .C → x ≠ .cancelled)
+    (hcl : isCloser s t → x = .ready ∨ x = .cancelled)
+    (hcan : s.status t = .cancelled → x = .cancelled ∨ ∀ j, stageOf t ≠ some j)
+    (hR : t = .R → x = .ready)
+    (hfin : (s.cstage = .finished ∨ s.cstage = .aborted) → t = .D → x = .ready) : InvB (s.setStatus t x) := by
+  obtain ⟨typ, waitq, waitt, ccan, bst, bwait, bdone, cb, rs, fin⟩ := i
+  refine ⟨?_, ?_, ?_, ?_, ?_, ?_, ?_, ?_, ?_, ?_⟩
+  · intro y hy
+    show allowed y (s.prog y) = true
+    rw [setStatus_status] at hy
+    by_cases hyt : y = t
+    · subst hyt; exact typ y hold
+    · simp only [hyt, if_false] at hy; exact typ y hy
+  · intro y hy
+    rw [setStatus_status] at hy
+    by_cases hyt : y = t
+    · subst hyt; simp only [if_true] at hy; exact hq hy
+    · simp only [hyt, if_false] at hy; exact waitq y hy
+  · intro y z hy
+    show (∃ pc c, s.cstage = .body y pc c) ∨ _
+    rw [setStatus_status] at hy
+    by_cases hyt : y = t
+    · subst hyt; simp only [if_true] at hy; exact absurd hy (hxw z)
+    · simp only [hyt, if_false] at hy; exact waitt y z hy
+  · rw [setStatus_status]
+    by_cases hyt : Tid.C = t
+    · simp only [hyt, if_true]; exact hC hyt.symm
+    · simp only [hyt, if_false]; exact ccan
+  · intro t' pc c hc
+    have hc' : s.cstage = .body t' pc c := hc
+    obtain ⟨a, b, c', d, e, f⟩ := bst t' pc c hc'
+    refine ⟨a, b, c', ?_, ?_, f⟩
+    · rw [setStatus_status]; split
+      · exact hx
+      · exact d
+    · rw [setStatus_status]; split
+      · rename_i h; subst h
+        rcases hcl (Or.inl ⟨pc, c, hc'⟩) with h | h <;> rw [h] <;> simp
+      · exact e
+  · intro t' pc c x0 hc hw
+    have hc' : s.cstage = .body t' pc c := hc
+    rw [setStatus_status] at hw
+    by_cases ht : t' = t
+    · subst ht; simp only [if_true] at hw; exact absurd hw (hxw x0)
+    · simp only [ht, if_false] at hw
+      obtain ⟨a, b⟩ := bwait t' pc c x0 hc' hw
+      refine ⟨a, ?_⟩
+      rw [setStatus_status]
+      by_cases hx0 : x0 = t
+      · subst hx0; simp only [if_true]
+        rcases hcan b with h | h
+        · exact h
+        · exact absurd a (h _)
+      · simp only [hx0, if_false]; exact b
+  · intro t' pc c x0 j hc hs hj
+    have hc' : s.cstage = .body t' pc c := hc
+    have hj' : j + 1 < pc ∨ (j + 1 = pc ∧ ∀ y, s.status t' ≠ .waitT y) := by
+      rcases hj with hj | ⟨hj, hy⟩
+      · exact Or.inl hj
+      · right
+        refine ⟨hj, ?_⟩
+        by_cases ht : t' = t
+        · subst ht; exact hnw
+        · intro y; have := hy y; rw [setStatus_status] at this; simpa [ht] using this
+    exact okDone_restatus hold hR (bdone t' pc c x0 j hc' hs hj')
+  · intro t' k c hc
+    have hc' : s.cstage = .cb t' k c := hc
+    obtain ⟨a, b, cok, d⟩ := cb t' k c hc'
+    refine ⟨a, ?_, cok, fun x0 j hs => okDone_restatus hold hR (d x0 j hs)⟩
+    rw [setStatus_status]; split
+    · rename_i h; subst h; exact hcl (Or.inr ⟨k, c, hc'⟩)
+    · exact b
+  · intro hr
+    rcases rs hr with h | h | h
+    · exact Or.inl h
+    · right; left
+      rw [setStatus_status]
+      by_cases hRt : Tid.R = t
+      · rw [← hRt] at hold; rw [hold] at h; contradiction
+      · simp only [hRt, if_false]; exact h
+    · right; right
+      rw [setStatus_status]
+      by_cases hRt : Tid.R = t
+      · simp only [hRt, if_true]; exact hR hRt.symm
+      · simp only [hRt, if_false]; exact h
+  · intro hc
+    have hc' : s.cstage = .finished ∨ s.cstage = .aborted := hc
+    obtain ⟨a, b, c, d, e⟩ := fin hc'
+    have key : ∀ y, alive (s.status y) = false → alive ((s.setStatus t x).status y) = false := by
+      intro y hy
+      rw [setStatus_status]
+      by_cases hyt : y = t
+      · subst hyt; rw [hold] at hy; contradiction
+      · simp only [hyt, if_false]; exact hy
+    refine ⟨key _ a, key _ b, key _ c, ?_, ?_⟩
+    · rcases d with d | d
+      · exact Or.inl (key _ d)
+      · right; rw [setStatus_status]
+        by_cases hyt : Tid.D = t
+        · simp only [hyt, if_true]; exact hfin hc' hyt.symm
+        · simp only [hyt, if_false]; exact d
+    · rcases e with e | e
+      · exact Or.inl (key _ e)
+      · right; rw [setStatus_status]
+        by_cases hyt : Tid.R = t
+        · simp only [hyt, if_true]; exact hR hyt.symm
+        · simp only [hyt, if_false]; exact e
+
+/-- a task's program changes (not the closer's, whose program is `inClose`) -/
+theorem InvB.setProg {s : St} (i : InvB s) (t : Tid) (p : Prog)
+    (hp : alive (s.status t) = true → allowed t p = true) (hnc : ¬ isCloser s t) : InvB (s.setProg t p) := by
+  obtain ⟨typ, waitq, waitt, ccan, bst, bwait, bdone, cb, rs, fin⟩ := i
+  refine ⟨?_, waitq, waitt, ccan, ?_, bwait, bdone, ?_, rs, fin⟩
+  · intro y hy
+    show allowed y (if y = t then p else s.prog y) = true
+    by_cases hyt : y = t
+    · subst hyt; simp only [if_true]; exact hp hy
+    · simp only [hyt, if_false]; exact typ y hy
+  · intro t' pc c hc
+    have hne : t' ≠ t := by intro e; subst e; exact hnc (Or.inl ⟨pc, c, hc⟩)
+    obtain ⟨a, b⟩ := bst t' pc c hc
+    refine ⟨?_, b⟩
+    show (if t' = t then p else s.prog t') = .inClose
+    simp only [hne, if_false]; exact a
+  · intro t' k c hc
+    have hne : t' ≠ t := by intro e; subst e; exact hnc (Or.inr ⟨k, c, hc⟩)
+    obtain ⟨a, b⟩ := cb t' k c hc
+    refine ⟨?_, b⟩
+    show (if t' = t then p else s.prog t') = .inClose
+    simp only [hne, if_false]; exact a
+
+/-- when no close is in progress only the first four fields (and the stopped-reader fact) matter -/
+theorem InvB.of_idle {s : St} (h : s.cstage = .idle)
+    (typ : ∀ t, alive (s.status t) = true → allowed t (s.prog t) = true)
+    (waitq : ∀ t, s.status t = .waitQ → t = .D ∨ t = .V)
+    (waitt : ∀ t y, s.status t = .waitT y → ∃ u, t = .U u ∧ y = .V)
+    (ccan : s.status .C ≠ .cancelled) (hrs : s.rStopped = false) : InvB s :=
+  ⟨typ, waitq, fun t y hy => Or.inr (waitt t y hy), ccan,
+   by intro t pc c hc; rw [h] at hc; contradiction,
+   by intro t pc c x hc; rw [h] at hc; contradiction,
+   by intro t pc c x j hc; rw [h] at hc; contradiction,
+   by intro t k c hc; rw [h] at hc; contradiction,
+   by intro hr; rw [hrs] at hr; contradiction,
+   by intro hc; rw [h] at hc; rcases hc with hc | hc <;> contradiction⟩
+
+theorem InvB.idle_waitt {s : St} (i : InvB s) (h : s.cstage = .idle) :
+    ∀ t y, s.status t = .waitT y → ∃ u, t = .U u ∧ y = .V := by
+  intro t y hy
+  rcases i.waitt t y hy with ⟨pc, c, hb⟩ | h'
+  · rw [h] at hb; contradiction
+  · exact h'
+
+theorem spawn_status (s : St) (t y : Tid) (p : Prog) : (s.spawn t p).status y = if y = t then .ready else s.status y := rfl
+theorem spawn_prog (s : St) (t y : Tid) (p : Prog) : (s.spawn t p).prog y = if y = t then p else s.prog y := rfl
+
+/-- a task is (re)started while no close is in progress -/
+theorem InvB.spawn {s : St} (i : InvB s) (h : s.cstage = .idle) (hrs : s.rStopped = false) (t : Tid) (p : Prog)
+    (hp : allowed t p = true) : InvB (s.spawn t p) := by
+  have hw := i.idle_waitt h
+  apply InvB.of_idle (by exact h) _ _ _ _ (by exact hrs)
+  · intro y hy
+    rw [spawn_prog]; rw [spawn_status] at hy
+    by_cases hyt : y = t
+    · subst hyt; simp only [if_true]; exact hp
+    · simp only [hyt, if_false] at hy ⊢; exact i.typ y hy
+  · intro y hy
+    rw [spawn_status] at hy
+    by_cases hyt : y = t
+    · simp [hyt] at hy
+    · simp only [hyt, if_false] at hy; exact i.waitq y hy
+  · intro y z hy
+    rw [spawn_status] at hy
+    by_cases hyt : y = t
+    · simp [hyt] at hy
+    · simp only [hyt, if_false] at hy; exact hw y z hy
+  · rw [spawn_status]
+    split
+    · simp
+    · exact i.ccan
+
+/-- the status of a task that is not alive changes to another not-alive status -/
+theorem InvB.setStatus_dead {s : St} (i : InvB s) (t : Tid) (x : Status) (h : alive (s.status t) = false)
+    (hx : alive x = false) : InvB (s.setStatus t x) := by
+  have hxs : ∀ y, alive ((s.setStatus t x).status y) = alive (s.status y) := by
+    intro y; rw [setStatus_status]; split
+    · rename_i e; subst e; rw [hx, h]
+    · rfl
+  have hne : ∀ y, alive (s.status y) = true → (s.setStatus t x).status y = s.status y := by
+    intro y hy; rw [setStatus_status]; split
+    · rename_i e; subst e; rw [h] at hy; contradiction
+    · rfl
+  have hrev : ∀ y, alive ((s.setStatus t x).status y) = true → (s.setStatus t x).status y = s.status y := by
+    intro y hy; rw [hxs] at hy; exact hne y hy
+  have okd : ∀ t' x0, okDone s t' x0 → okDone (s.setStatus t x) t' x0 := by
+    intro t' x0 hk
+    rcases hk with hk | hk | ⟨hk1, hk2⟩
+    · exact Or.inl hk
+    · exact Or.inr (Or.inl (by rw [hxs]; exact hk))
+    · exact Or.inr (Or.inr ⟨hk1, by rw [hne _ (by rw [hk2]; rfl)]; exact hk2⟩)
+  obtain ⟨typ, waitq, waitt, ccan, bst, bwait, bdone, cb, rs, fin⟩ := i
+  refine ⟨?_, ?_, ?_, ?_, ?_, ?_, ?_, ?_, ?_, ?_⟩
+  · intro y hy; rw [hxs] at hy; exact typ y hy
+  · intro y hy; have := hrev y (by rw [hy]; rfl); rw [this] at hy; exact waitq y hy
+  · intro y z hy; have := hrev y (by rw [hy]; rfl); rw [this] at hy; exact waitt y z hy
+  · intro hC
+    have := hrev .C (by rw [hC]; rfl); rw [this] at hC; exact ccan hC
+  · intro t' pc c hc
+    obtain ⟨a, b, c', d, e, f⟩ := bst t' pc c hc
+    exact ⟨a, b, c', by rw [hxs]; exact d, by rw [hne _ d]; exact e, f⟩
+  · intro t' pc c x0 hc hw
+    have := hrev t' (by rw [hw]; rfl); rw [this] at hw
+    obtain ⟨a, b⟩ := bwait t' pc c x0 hc hw
+    exact ⟨a, by rw [hne _ (by rw [b]; rfl)]; exact b⟩
+  · intro t' pc c x0 j hc hs hj
+    apply okd
+    apply bdone t' pc c x0 j hc hs
+    rcases hj with hj | ⟨hj, hy⟩
+    · exact Or.inl hj
+    · right; refine ⟨hj, ?_⟩
+      intro y hw
+      have hal : alive (s.status t') = true := by rw [hw]; rfl
+      exact hy y (by rw [hne _ hal]; exact hw)
+  · intro t' k c hc
+    obtain ⟨a, b, cok, d⟩ := cb t' k c hc
+    have hal : alive (s.status t') = true := by rcases b with b | b <;> rw [b] <;> rfl
+    exact ⟨a, by rw [hne _ hal]; exact b, cok, fun x0 j hs => okd _ _ (d x0 j hs)⟩
+  · intro hr
+    rcases rs hr with h' | h' | h'
+    · exact Or.inl h'
+    · exact Or.inr (Or.inl (by rw [hxs]; exact h'))
+    · exact Or.inr (Or.inr (by rw [hne _ (by rw [h']; rfl)]; exact h'))
+  · intro hc
+    obtain ⟨a, b, c, d, e⟩ := fin hc
+    have k2 : ∀ y, (alive (s.status y) = false ∨ s.status y = .ready) →
+        (alive ((s.setStatus t x).status y) = false ∨ (s.setStatus t x).status y = .ready) := by
+      intro y hy
+      rcases hy with hy | hy
+      · exact Or.inl (by rw [hxs]; exact hy)
+      · exact Or.inr (by rw [hne _ (by rw [hy]; rfl)]; exact hy)
+    exact ⟨by rw [hxs]; exact a, by rw [hxs]; exact b, by rw [hxs]; exact c, k2 _ d, k2 _ e⟩
+
+/-- a fresh user task starts running -/
+theorem InvB.userStart {s : St} (i : InvB s) (u : Nat) (p : Prog) (h : s.status (.U u) = .absent)
+    (hp : allowed (.U u) p = true) (hpc : p ≠ .inClose) : InvB ((s.setStatus (.U u) .ready).setProg (.U u) p) := by
+  have hnc : ¬ isCloser s (.U u) := by
+    rintro (⟨pc, c, hb⟩ | ⟨k, c, hc⟩)
+    · have := (i.bst _ pc c hb).2.2.2.1; rw [h] at this; simp [alive] at this
+    · have := (i.cb _ k c hc).2.1; rw [h] at this; simp at this
+  have hst : ∀ y, ((s.setStatus (.U u) .ready).setProg (.U u) p).status y = if y = .U u then .ready else s.status y := fun _ => rfl
+  have hpr : ∀ y, ((s.setStatus (.U u) .ready).setProg (.U u) p).prog y = if y = .U u then p else s.prog y := fun _ => rfl
+  have hlib : ∀ y j, stageOf y = some j → ((s.setStatus (.U u) .ready).setProg (.U u) p).status y = s.status y := by
+    intro y j hj; rw [hst]; split
+    · rename_i e; subst e; exact absurd hj (stageOf_user u j)
+    · rfl
+  have okd : ∀ t' x0 j, stageOf x0 = some j → okDone s t' x0 → okDone ((s.setStatus (.U u) .ready).setProg (.U u) p) t' x0 := by
+    intro t' x0 j hj hk
+    unfold okDone at hk ⊢
+    rw [hlib x0 j hj, hlib .R 4 rfl]; exact hk
+  obtain ⟨typ, waitq, waitt, ccan, bst, bwait, bdone, cb, rs, fin⟩ := i
+  refine ⟨?_, ?_, ?_, ?_, ?_, ?_, ?_, ?_, ?_, ?_⟩
+  · intro y hy
+    rw [hpr]; rw [hst] at hy
+    by_cases hyu : y = .U u
+    · subst hyu; simp only [if_true]; exact hp
+    · simp only [hyu, if_false] at hy ⊢; exact typ y hy
+  · intro y hy; rw [hst] at hy
+    by_cases hyu : y = .U u
+    · simp [hyu] at hy
+    · simp only [hyu, if_false] at hy; exact waitq y hy
+  · intro y z hy; rw [hst] at hy
+    by_cases hyu : y = .U u
+    · simp [hyu] at hy
+    · simp only [hyu, if_false] at hy; exact waitt y z hy
+  · rw [hst]; simp; exact ccan
+  · intro t' pc c hc
+    have hne : t' ≠ .U u := by intro e; subst e; exact hnc (Or.inl ⟨pc, c, hc⟩)
+    obtain ⟨a, b, c', d, e, f⟩ := bst t' pc c hc
+    exact ⟨by rw [hpr]; simp only [hne, if_false]; exact a, b, c', by rw [hst]; simp only [hne, if_false]; exact d,
+      by rw [hst]; simp only [hne, if_false]; exact e, f⟩
+  · intro t' pc c x0 hc hw
+    have hne : t' ≠ .U u := by intro e; subst e; exact hnc (Or.inl ⟨pc, c, hc⟩)
+    rw [hst] at hw; simp only [hne, if_false] at hw
+    obtain ⟨a, b⟩ := bwait t' pc c x0 hc hw
+    exact ⟨a, by rw [hlib x0 _ a]; exact b⟩
+  · intro t' pc c x0 j hc hs hj
+    have hne : t' ≠ .U u := by intro e; subst e; exact hnc (Or.inl ⟨pc, c, hc⟩)
+    apply okd t' x0 j hs
+    apply bdone t' pc c x0 j hc hs
+    rcases hj with hj | ⟨hj, hy⟩
+    · exact Or.inl hj
+    · right; refine ⟨hj, ?_⟩
+      intro y; have := hy y; rw [hst] at this; simpa [hne] using this
+  · intro t' k c hc
+    have hne : t' ≠ .U u := by intro e; subst e; exact hnc (Or.inr ⟨k, c, hc⟩)
+    obtain ⟨a, b, cok, d⟩ := cb t' k c hc
+    exact ⟨by rw [hpr]; simp only [hne, if_false]; exact a, by rw [hst]; simp only [hne, if_false]; exact b, cok,
+      fun x0 j hs => okd _ _ j hs (d x0 j hs)⟩
+  · intro hr
+    rw [hlib .R 4 rfl]; exact rs hr
+  · intro hc
+    rw [hlib .L 2 rfl, hlib .M 3 rfl, hlib .V 1 rfl, hlib .D 0 rfl, hlib .R 4 rfl]; exact fin hc
+
+/-- `Reader.stop()` marks the reader stopped -/
+theorem InvB.setRStopped {s : St} (i : InvB s) (h : isCloser s .R ∨ alive (s.status .R) = false ∨ s.status .R = .ready) :
+    InvB { s with rStopped := true } :=
+  ⟨i.typ, i.waitq, i.waitt, i.ccan, i.bst, i.bwait, i.bdone, i.cb, fun _ => h, i.fin⟩
+
+/-- `close()` returns at once to a task that is not the closer (the session was already closed) -/
+theorem runCont_InvB_nonCloser {s : St} (i : InvB s) {t : Tid} {c : Cont} (hst : s.status t = .ready)
+    (hp : s.prog t ≠ .inClose) (hc : contOk t c) : InvB (runCont s t c) := by
+  have hnc := not_closer_of_prog i hp
+  cases c with
+  | readerTail =>
+    simp only [contOk] at hc; subst hc
+    have i1 : InvB ({ s with rStopped := true } : St) := i.setRStopped (Or.inr (Or.inr hst))
+    have i2 := i1.restatus .R .ready (by show alive (s.status .R) = true; rw [hst]; rfl)
+      (by intro y; show s.status .R ≠ _; rw [hst]; simp) rfl (by simp) (by simp) (by simp) (fun _ => Or.inl rfl)
+      (by show s.status .R = .cancelled → _; rw [hst]; simp) (fun _ => rfl) (by simp)
+    exact i2.setProg .R .readerLoop (fun _ => rfl) hnc
+  | handlerTail n =>
+    simp only [contOk] at hc; subst hc
+    have i1 : InvB (s.emit (.msgExit n)) := i.emit
+    have i2 := i1.restatus .D .ready (by show alive (s.status .D) = true; rw [hst]; rfl)
+      (by intro y; show s.status .D ≠ _; rw [hst]; simp) rfl (by simp) (by simp) (by simp) (fun _ => Or.inl rfl)
+      (by show s.status .D = .cancelled → _; rw [hst]; simp) (by simp) (fun _ _ => rfl)
+    have i3 := i2.setProg .D .dispLoop (fun _ => rfl) hnc
+    exact InvB.of_bcore (s := ((s.emit (.msgExit n)).setStatus .D .ready).setProg .D .dispLoop) rfl i3
+  | monitorTail => exact i.finish t hnc
+  | closingTail => exact i.finish t hnc
+  | userTail u r => exact (i.emit (o := .ret u r.toRes)).finish t hnc
+
+/-! ### the close body -/
+
+/-- the facts under which the closer `t` runs stage `j` of the close body -/
+structure PreB (s : St) (t : Tid) (c : Cont) (j : Nat) : Prop where
+  typ : ∀ y, alive (s.status y) = true → allowed y (s.prog y) = true
+  waitq : ∀ y, s.status y = .waitQ → y = .D ∨ y = .V
+  waitt : ∀ y z, s.status y = .waitT z → ∃ u, y = .U u ∧ z = .V
+  ccan : s.status .C ≠ .cancelled
+  st : s.status t = .ready
+  cok : contOk t c
+  done : ∀ x i, stageOf x = some i → i < j → okDone s t x
+  rs : s.rStopped = true → t = .R ∨ alive (s.status .R) = false ∨ s.status .R = .ready
+
+theorem PreB.next {s : St} {t : Tid} {c : Cont} {j : Nat} {x : Tid} (p : PreB s t c j) (hx : stageOf x = some j)
+    (hd : okDone s t x) : PreB s t c (j + 1) :=
+  ⟨p.typ, p.waitq, p.waitt, p.ccan, p.st, p.cok, by
+    intro y i hy hi
+    by_cases hij : i < j
+    · exact p.done y i hy hij
+    · have : i = j := by omega
+      subst this
+      have := stageOf_inj hy hx
+      subst this; exact hd, p.rs⟩
+
+theorem PreB.mono {s : St} {t : Tid} {c : Cont} {j k : Nat} (p : PreB s t c j) (h : k ≤ j) : PreB s t c k :=
+  ⟨p.typ, p.waitq, p.waitt, p.ccan, p.st, p.cok, fun x i hx hi => p.done x i hx (by omega), p.rs⟩
+
+theorem PreB.all {s : St} {t : Tid} {c : Cont} {j : Nat} (p : PreB s t c j) (h : 5 ≤ j) :
+    ∀ x i, stageOf x = some i → okDone s t x :=
+  fun x i hx => p.done x i hx (by have := stageOf_lt hx; omega)
+
+/-- status function after cancelling a live stop target that is not itself waiting for a task -/
+theorem cancelTask_status {s : St} {x : Tid} (ha : alive (s.status x) = true) (hw : ∀ z, s.status x ≠ .waitT z) (y : Tid) :
+    (s.cancelTask x).status y = if y = x then .cancelled else s.status y := by
+  unfold St.cancelTask
+  cases hs : s.status x with
+  | absent => rw [hs] at ha; simp [alive] at ha
+  | done => rw [hs] at ha; simp [alive] at ha
+  | ready => simp only [St.setStatus]
+  | waitQ => simp only [St.setStatus]
+  | cancelled => simp only; split <;> simp_all
+  | waitT z => exact absurd hs (hw z)
+
+theorem cancelTask_prog (s : St) (x : Tid) : (s.cancelTask x).prog = s.prog := by
+  unfold St.cancelTask
+  split <;> try rfl
+  split <;> rfl
+
+theorem cancelTask_rStopped (s : St) (x : Tid) : (s.cancelTask x).rStopped = s.rStopped := by
+  unfold St.cancelTask
+  split <;> try rfl
+  split <;> rfl
+
+/-- the closer suspends on the cancelled target of stage `j` -/
+theorem suspendOn_InvB {s : St} {t x : Tid} {c : Cont} {j : Nat} (p : PreB s t c j)
+    (hx : stageOf x = some j) (hne : x ≠ t) (ha : alive (s.status x) = true) (hxR : x = .R → s.rStopped = false) :
+    InvB (suspendOn s t x j c) := by
+  have hxw : ∀ z, s.status x ≠ .waitT z := by
+    intro z hz
+    obtain ⟨u, hu, _⟩ := p.waitt x z hz
+    subst hu; exact stageOf_user u j hx
+  have hj4 : j ≤ 4 := stageOf_lt hx
+  have hst : ∀ y, (suspendOn s t x j c).status y =
+      if y = t then .waitT x else if y = x then .cancelled else s.status y := by
+    intro y
+    show (if y = t then Status.waitT x else (s.cancelTask x).status y) = _
+    rw [cancelTask_status ha hxw]
+  have hpr : ∀ y, (suspendOn s t x j c).prog y = if y = t then .inClose else s.prog y := by
+    intro y
+    show (if y = t then Prog.inClose else (s.cancelTask x).prog y) = _
+    rw [cancelTask_prog]
+  have hcs : (suspendOn s t x j c).cstage = .body t (j + 1) c := rfl
+  have hrs : (suspendOn s t x j c).rStopped = s.rStopped := cancelTask_rStopped s x
+  refine ⟨?_, ?_, ?_, ?_, ?_, ?_, ?_, ?_, ?_, ?_⟩
+  · intro y hy
+    rw [hst] at hy; rw [hpr]
+    by_cases hyt : y = t
+    · subst hyt; simp only [if_true]; exact contOk_allowed p.cok
+    · simp only [hyt, if_false] at hy ⊢
+      by_cases hyx : y = x
+      · subst hyx; exact p.typ y ha
+      · simp only [hyx, if_false] at hy; exact p.typ y hy
+  · intro y hy
+    rw [hst] at hy
+    by_cases hyt : y = t
+    · simp [hyt] at hy
+    · by_cases hyx : y = x
+      · subst hyx; simp [hyt] at hy
+      · simp only [hyt, hyx, if_false] at hy; exact p.waitq y hy
+  · intro y z hy
+    rw [hst] at hy; rw [hcs]
+    by_cases hyt : y = t
+    · left; exact ⟨j + 1, c, by rw [hyt]⟩
+    · by_cases hyx : y = x
+      · subst hyx; simp [hyt] at hy
+      · simp only [hyt, hyx, if_false] at hy; right; exact p.waitt y z hy
+  · rw [hst]
+    by_cases hCt : Tid.C = t
+    · simp [hCt]
+    · have hCx : Tid.C ≠ x := by intro e; rw [← e] at hx; exact stageOf_C j hx
+      simp only [hCt, hCx, if_false]; exact p.ccan
+  · intro t' pc c' hc
+    rw [hcs] at hc; injection hc with e1 e2 e3; subst e1 e2 e3
+    exact ⟨by rw [hpr]; simp, by omega, by omega, by rw [hst]; simp [alive], by rw [hst]; simp, p.cok⟩
+  · intro t' pc c' x0 hc hw
+    rw [hcs] at hc; injection hc with e1 e2 e3; subst e1 e2 e3
+    rw [hst] at hw; simp only [if_true] at hw
+    injection hw with hw; subst hw
+    refine ⟨by simpa using hx, ?_⟩
+    rw [hst]; simp [hne]
+  · intro t' pc c' x0 i hc hs hi
+    rw [hcs] at hc; injection hc with e1 e2 e3; subst e1 e2 e3
+    rcases hi with hi | ⟨_, hy⟩
+    · have hij : i < j := by omega
+      have hx0 : x0 ≠ x := by intro e; subst e; rw [hs] at hx; injection hx with hx; omega
+      rcases p.done x0 i hs hij with h | h | ⟨h1, h2⟩
+      · exact Or.inl h
+      · right; left
+        rw [hst]
+        by_cases hx0t : x0 = t
+        · subst hx0t; rw [p.st] at h; simp [alive] at h
+        · simp only [hx0t, hx0, if_false]; exact h
+      · subst h1; simp [stageOf] at hs; omega
+    · exact absurd (by rw [hst]; simp) (hy x)
+  · intro t' k c' hc; rw [hcs] at hc; contradiction
+  · intro hr
+    rw [hrs] at hr
+    have hxR' : x ≠ .R := by intro e; have := hxR e; rw [this] at hr; contradiction
+    rcases p.rs hr with h | h | h
+    · left; left; exact ⟨j + 1, c, by rw [hcs, h]⟩
+    · right; left; rw [hst]
+      by_cases hRt : Tid.R = t
+      · rw [← hRt] at p; rw [p.st] at h; simp [alive] at h
+      · simp only [hRt, Ne.symm hxR', if_false]; exact h
+    · by_cases hRt : Tid.R = t
+      · left; left; exact ⟨j + 1, c, by rw [hcs, hRt]⟩
+      · right; right; rw [hst]; simp only [hRt, Ne.symm hxR', if_false]; exact h
+  · intro hc; rw [hcs] at hc; rcases hc with hc | hc <;> contradiction
+
+/-- the state at the end of the close: every stop target needs no more stopping, the last task to act ends -/
+theorem InvB.at_end {s : St} {t : Tid} (hE : s.cstage = .finished ∨ s.cstage = .aborted)
+    (typ : ∀ y, alive (s.status y) = true → allowed y (s.prog y) = true)
+    (waitq : ∀ y, s.status y = .waitQ → y = .D ∨ y = .V)
+    (waitt : ∀ y z, s.status y = .waitT z → ∃ u, y = .U u ∧ z = .V)
+    (ccan : s.status .C ≠ .cancelled)
+    (hL : alive (s.status .L) = false) (hM : alive (s.status .M) = false) (hV : alive (s.status .V) = false)
+    (hD : alive (s.status .D) = false ∨ s.status .D = .ready)
+    (hR : alive (s.status .R) = false ∨ s.status .R = .ready) : InvB s :=
+  ⟨typ, waitq, fun y z h => Or.inr (waitt y z h), ccan,
+   by intro t pc c hc; rcases hE with h | h <;> rw [h] at hc <;> contradiction,
+   by intro t pc c x hc; rcases hE with h | h <;> rw [h] at hc <;> contradiction,
+   by intro t pc c x j hc; rcases hE with h | h <;> rw [h] at hc <;> contradiction,
+   by intro t k c hc; rcases hE with h | h <;> rw [h] at hc <;> contradiction,
+   fun _ => Or.inr hR, fun _ => ⟨hL, hM, hV, hD, hR⟩⟩
+
+/-- facts at the last step of the closer (`t` is runnable, every target is done) -/
+structure EndB (s : St) (t : Tid) : Prop where
+  typ : ∀ y, alive (s.status y) = true → allowed y (s.prog y) = true
+  waitq : ∀ y, s.status y = .waitQ → y = .D ∨ y = .V
+  waitt : ∀ y z, s.status y = .waitT z → ∃ u, y = .U u ∧ z = .V
+  ccan : s.status .C ≠ .cancelled
+  st : s.status t = .ready ∨ s.status t = .cancelled
+  tV : t ≠ .V
+  all : ∀ x i, stageOf x = some i → okDone s t x
+
+/-- the closer ends (closing task, monitor, user call; or a user call cancelled inside the close callback) -/
+theorem EndB.finish {s : St} {t : Tid} (e : EndB s t) (s1 : St) (hb : s1.status = s.status ∧ s1.prog = s.prog)
+    (hE : s1.cstage = .finished ∨ s1.cstage = .aborted) : InvB (s1.finish t) := by
+  obtain ⟨hs1, hp1⟩ := hb
+  have hnw : ∀ y, s.status y ≠ .waitT t := by
+    intro y hy
+    obtain ⟨u, _, hz⟩ := e.waitt y t hy
+    exact e.tV hz
+  have hst : ∀ y, (s1.finish t).status y = if y = t then .done else s.status y := by
+    intro y; rw [finish_status, hs1]
+    by_cases hyt : y = t
+    · simp [hyt]
+    · simp [hyt, hnw y]
+  have dead_of : ∀ x i, stageOf x = some i → x ≠ .R → alive ((s1.finish t).status x) = false := by
+    intro x i hx hxR
+    rw [hst]
+    by_cases hxt : x = t
+    · simp [hxt, alive]
+    · simp only [hxt, if_false]
+      rcases e.all x i hx with h | h | ⟨h, _⟩
+      · exact absurd h hxt
+      · exact h
+      · exact absurd h hxR
+  have dr_of : ∀ x i, stageOf x = some i → (alive ((s1.finish t).status x) = false ∨ (s1.finish t).status x = .ready) := by
+    intro x i hx
+    rw [hst]
+    by_cases hxt : x = t
+    · left; simp [hxt, alive]
+    · simp only [hxt, if_false]
+      rcases e.all x i hx with h | h | ⟨h1, h2⟩
+      · exact absurd h hxt
+      · exact Or.inl h
+      · subst h1; exact Or.inr h2
+  apply InvB.at_end (t := t) (by exact hE)
+  · intro y hy
+    rw [hst] at hy
+    show allowed y (s1.prog y) = true
+    rw [hp1]
+    by_cases hyt : y = t
+    · simp [hyt, alive] at hy
+    · simp only [hyt, if_false] at hy; exact e.typ y hy
+  · intro y hy; rw [hst] at hy
+    by_cases hyt : y = t
+    · simp [hyt] at hy
+    · simp only [hyt, if_false] at hy; exact e.waitq y hy
+  · intro y z hy; rw [hst] at hy
+    by_cases hyt : y = t
+    · simp [hyt] at hy
+    · simp only [hyt, if_false] at hy; exact e.waitt y z hy
+  · rw [hst]; split
+    · simp
+    · exact e.ccan
+  · exact dead_of .L 2 rfl (by simp)
+  · exact dead_of .M 3 rfl (by simp)
+  · exact dead_of .V 1 rfl (by simp)
+  · exact dr_of .D 0 rfl
+  · exact dr_of .R 4 rfl
+
+/-- the closer goes on after the close (reader back to its loop, dispatcher back to its loop) -/
+theorem EndB.resume {s : St} {t : Tid} (e : EndB s t) (hst0 : s.status t = .ready) (s1 : St) (p : Prog)
+    (hb : s1.status = s.status ∧ s1.prog = s.prog) (hE : s1.cstage = .finished ∨ s1.cstage = .aborted)
+    (ht : t = .R ∨ t = .D) (hp : allowed t p = true) : InvB ((s1.setStatus t .ready).setProg t p) := by
+  obtain ⟨hs1, hp1⟩ := hb
+  have hst : ∀ y, ((s1.setStatus t .ready).setProg t p).status y = s.status y := by
+    intro y
+    show (if y = t then Status.ready else s1.status y) = _
+    rw [hs1]; split
+    · rename_i h; rw [h, hst0]
+    · rfl
+  have hpr : ∀ y, ((s1.setStatus t .ready).setProg t p).prog y = if y = t then p else s.prog y := by
+    intro y
+    show (if y = t then p else s1.prog y) = _
+    rw [hp1]
+  have dead_of : ∀ x i, stageOf x = some i → x ≠ .R → x ≠ .D → alive (s.status x) = false := by
+    intro x i hx hxR hxD
+    rcases e.all x i hx with h | h | ⟨h, _⟩
+    · rcases ht with ht | ht <;> rw [ht] at h <;> simp_all
+    · exact h
+    · exact absurd h hxR
+  have dr_of : ∀ x i, stageOf x = some i → (alive (s.status x) = false ∨ s.status x = .ready) := by
+    intro x i hx
+    rcases e.all x i hx with h | h | ⟨h1, h2⟩
+    · right; rw [h]; exact hst0
+    · exact Or.inl h
+    · subst h1; exact Or.inr h2
+  apply InvB.at_end (t := t) (by exact hE)
+  · intro y hy
+    rw [hst] at hy; rw [hpr]
+    by_cases hyt : y = t
+    · simp only [hyt, if_true]; exact hp
+    · simp only [hyt, if_false]; exact e.typ y hy
+  · intro y hy; rw [hst] at hy; exact e.waitq y hy
+  · intro y z hy; rw [hst] at hy; exact e.waitt y z hy
+  · rw [hst]; exact e.ccan
+  · rw [hst]; exact dead_of .L 2 rfl (by simp) (by simp)
+  · rw [hst]; exact dead_of .M 3 rfl (by simp) (by simp)
+  · rw [hst]; exact dead_of .V 1 rfl (by simp) (by simp)
+  · rw [hst]; exact dr_of .D 0 rfl
+  · rw [hst]; exact dr_of .R 4 rfl
+
+/-- `close()` returns to the closer -/
+theorem EndB.runCont {s : St} {t : Tid} {c : Cont} (e : EndB s t) (hst0 : s.status t = .ready) (hc : contOk t c)
+    (s1 : St) (hb : s1.status = s.status ∧ s1.prog = s.prog) (hE : s1.cstage = .finished) :
+    InvB (runCont s1 t c) := by
+  cases c with
+  | readerTail =>
+    simp only [contOk] at hc; subst hc
+    exact e.resume hst0 { s1 with rStopped := true } .readerLoop hb (Or.inl hE) (Or.inl rfl) rfl
+  | handlerTail n =>
+    simp only [contOk] at hc; subst hc
+    have := e.resume hst0 (s1.emit (.msgExit n)) .dispLoop hb (Or.inl hE) (Or.inr rfl) rfl
+    exact InvB.of_bcore (s := ((s1.emit (.msgExit n)).setStatus .D .ready).setProg .D .dispLoop) rfl this
+  | monitorTail => exact e.finish s1 hb (Or.inl hE)
+  | closingTail => exact e.finish s1 hb (Or.inl hE)
+  | userTail u r => exact e.finish (s1.emit (.ret u r.toRes)) hb (Or.inl hE)
+
+theorem contOk_ne_V {t : Tid} {c : Cont} (h : contOk t c) : t ≠ .V := by
+  cases c <;> simp [contOk] at h <;> subst h <;> simp
+
+theorem PreB.toEnd {s : St} {t : Tid} {c : Cont} {j : Nat} (p : PreB s t c j) (h : 5 ≤ j) : EndB s t :=
+  ⟨p.typ, p.waitq, p.waitt, p.ccan, Or.inl p.st, contOk_ne_V p.cok, p.all h⟩
+
+/-- the end of the close body -/
+theorem closeTail_InvB {cfg : Cfg} {s : St} {t : Tid} {c : Cont} {j : Nat} (p : PreB s t c j) (h : 5 ≤ j) :
+    InvB (closeTail cfg s t c) := by
+  have e := p.toEnd h
+  unfold closeTail
+  simp only
+  split
+  · exact e.runCont p.st p.cok _ ⟨rfl, rfl⟩ rfl
+  · split
+    · -- inside the close callback
+      rename_i k _
+      have hst : ∀ y, ((((s.emit .tclose).emit .cbEnter).setStatus t .ready).setProg t .inClose).status y = s.status y := by
+        intro y
+        show (if y = t then Status.ready else s.status y) = _
+        split
+        · rename_i hy; rw [hy, p.st]
+        · rfl
+      have hpr : ∀ y, ((((s.emit .tclose).emit .cbEnter).setStatus t .ready).setProg t .inClose).prog y =
+          if y = t then .inClose else s.prog y := fun _ => rfl
+      refine ⟨?_, ?_, ?_, ?_, ?_, ?_, ?_, ?_, ?_, ?_⟩
+      · intro y hy
+        show allowed y ((((s.emit .tclose).emit .cbEnter).setStatus t .ready).setProg t .inClose |>.prog y) = true
+        rw [hpr]
+        have hy' : alive (s.status y) = true := by rw [← hst y]; exact hy
+        by_cases hyt : y = t
+        · simp only [hyt, if_true]; exact contOk_allowed p.cok
+        · simp only [hyt, if_false]; exact p.typ y hy'
+      · intro y hy; exact p.waitq y (by rw [← hst y]; exact hy)
+      · intro y z hy; right; exact p.waitt y z (by rw [← hst y]; exact hy)
+      · show ((((s.emit .tclose).emit .cbEnter).setStatus t .ready).setProg t .inClose).status .C ≠ _
+        rw [hst]; exact p.ccan
+      · intro t' pc c' hc; exact absurd hc (by simp)
+      · intro t' pc c' x hc; exact absurd hc (by simp)
+      · intro t' pc c' x i hc; exact absurd hc (by simp)
+      · intro t' k' c' hc
+        have hc' : CStage.cb t k c = CStage.cb t' k' c' := hc
+        injection hc' with e1 e2 e3; subst e1 e2 e3
+        refine ⟨by show (if t = t then Prog.inClose else _) = _; simp, Or.inl (by rw [hst]; exact p.st), p.cok, ?_⟩
+        intro x i hx
+        have := p.all h x i hx
+        unfold okDone at this ⊢
+        rw [hst x, hst .R]; exact this
+      · intro hr
+        have hr' : s.rStopped = true := hr
+        rcases p.rs hr' with h' | h' | h'
+        · left; right; exact ⟨k, c, by rw [h']⟩
+        · right; left; rw [hst]; exact h'
+        · right; right; rw [hst]; exact h'
+      · intro hc; rcases hc with hc | hc <;> exact absurd hc (by simp)
+    · exact e.runCont p.st p.cok _ ⟨rfl, rfl⟩ rfl
+
+/-! ### the stages -/
+
+theorem PreB.of_bcore {s s' : St} {t : Tid} {c : Cont} {j : Nat} (h : bcore s' = bcore s) (p : PreB s t c j) :
+    PreB s' t c j := by
+  simp only [bcore, Prod.mk.injEq] at h
+  obtain ⟨h1, h2, _, h4⟩ := h
+  obtain ⟨typ, waitq, waitt, ccan, st, cok, done, rs⟩ := p
+  refine ⟨?_, ?_, ?_, ?_, ?_, cok, ?_, ?_⟩
+  · rw [h1, h2]; exact typ
+  · rw [h1]; exact waitq
+  · rw [h1]; exact waitt
+  · rw [h1]; exact ccan
+  · rw [h1]; exact st
+  · unfold okDone; rw [h1]; exact done
+  · rw [h1, h4]; exact rs
+
+theorem ec6_InvB {cfg : Cfg} {s : St} {t : Tid} {c : Cont} (p : PreB s t c 5) : InvB (ec6 cfg t c s) :=
+  closeTail_InvB p (Nat.le_refl 5)
+
+theorem ec5_InvB {cfg : Cfg} {s : St} {t : Tid} {c : Cont} (p : PreB s t c 5) : InvB (ec5 cfg t c s) := by
+  unfold ec5
+  apply ec6_InvB
+  obtain ⟨typ, waitq, waitt, ccan, st, cok, done, rs⟩ := p
+  exact ⟨typ, waitq, waitt, ccan, st, cok, done, fun _ => by
+    rcases done .R 4 rfl (by omega) with h | h | ⟨_, h⟩
+    · exact Or.inl h.symm
+    · exact Or.inr (Or.inl h)
+    · exact Or.inr (Or.inr h)⟩
+
+theorem stopStage_InvB {s : St} {t : Tid} {c : Cont} {j : Nat} {x : Tid} {next : St → St} (p : PreB s t c j)
+    (hx : stageOf x = some j) (hxR : x = .R → s.rStopped = false)
+    (hn : PreB s t c (j + 1) → InvB (next s)) : InvB (stopStage s t c j x next) := by
+  unfold stopStage
+  split
+  · rename_i h
+    apply hn
+    apply p.next hx
+    simp only [Bool.or_eq_true, decide_eq_true_eq, Bool.not_eq_true'] at h
+    rcases h with h | h
+    · exact Or.inl h
+    · exact Or.inr (Or.inl h)
+  · rename_i h
+    simp only [Bool.or_eq_true, decide_eq_true_eq, Bool.not_eq_true', not_or] at h
+    exact suspendOn_InvB p hx h.1 (by simpa using h.2) hxR
+
+theorem ec4_InvB {cfg : Cfg} {s : St} {t : Tid} {c : Cont} (p : PreB s t c 4) : InvB (ec4 cfg t c s) := by
+  unfold ec4
+  split
+  · rename_i hr
+    apply ec6_InvB
+    apply p.next (x := .R) rfl
+    rcases p.rs hr with h | h | h
+    · exact Or.inl h.symm
+    · exact Or.inr (Or.inl h)
+    · exact Or.inr (Or.inr ⟨rfl, h⟩)
+  · rename_i hr
+    exact stopStage_InvB p rfl (fun _ => by simpa using hr) (fun p' => ec5_InvB p')
+
+theorem ec3_InvB {cfg : Cfg} {s : St} {t : Tid} {c : Cont} (p : PreB s t c 3) : InvB (ec3 cfg t c s) :=
+  stopStage_InvB p rfl (by simp) (fun p' => ec4_InvB p')
+
+theorem ec2_InvB {cfg : Cfg} {s : St} {t : Tid} {c : Cont} (p : PreB s t c 2) : InvB (ec2 cfg t c s) :=
+  stopStage_InvB p rfl (by simp) (fun p' => ec3_InvB p')
+
+theorem ec1_InvB {cfg : Cfg} {s : St} {t : Tid} {c : Cont} (p : PreB s t c 1) : InvB (ec1 cfg t c s) :=
+  stopStage_InvB p rfl (by simp) (fun p' => ec2_InvB p')
+
+theorem ec0_InvB {cfg : Cfg} {s : St} {t : Tid} {c : Cont} (p : PreB s t c 0) : InvB (ec0 cfg t c s) :=
+  stopStage_InvB p rfl (by simp) (fun p' => ec1_InvB (PreB.of_bcore (s := s) rfl p'))
+
+theorem execClose_InvB {cfg : Cfg} {s : St} {t : Tid} {c : Cont} {pc : Nat} (p : PreB s t c pc) :
+    InvB (execClose cfg s t c pc) := by
+  unfold execClose
+  split
+  · exact ec0_InvB p
+  · exact ec1_InvB p
+  · exact ec2_InvB p
+  · exact ec3_InvB p
+  · exact ec4_InvB p
+  · exact ec5_InvB p
+  · rename_i h0 h1 h2 h3 h4 h5
+    have : 5 ≤ pc := by
+      rcases Nat.lt_or_ge pc 5 with h | h
+      · exfalso
+        match pc, h with
+        | 0, _ => exact h0 rfl
+        | 1, _ => exact h1 rfl
+        | 2, _ => exact h2 rfl
+        | 3, _ => exact h3 rfl
+        | 4, _ => exact h4 rfl
+      · exact h
+    exact ec6_InvB (p.mono this)
+
+/-- `await self.close()` by a running task that is not the closer -/
+theorem enterClose_InvB {cfg : Cfg} {s : St} (a : InvA cfg s) (i : InvB s) {t : Tid} {c : Cont}
+    (hst : s.status t = .ready) (hp : s.prog t ≠ .inClose) (hc : contOk t c) : InvB (enterClose cfg s t c) := by
+  unfold enterClose
+  split
+  · exact runCont_InvB_nonCloser i hst hp hc
+  · rename_i hcl
+    have hidle : s.cstage = .idle := idle_of_open a (by simpa using hcl)
+    apply execClose_InvB
+    refine ⟨i.typ, i.waitq, i.idle_waitt hidle, i.ccan, hst, hc, ?_, ?_⟩
+    · intro x j _ hj; omega
+    · intro hr
+      have hr' : s.rStopped = true := hr
+      rcases i.rs hr' with h | h | h
+      · rcases h with ⟨pc, c', hb⟩ | ⟨k, c', hb⟩ <;> rw [hidle] at hb <;> contradiction
+      · exact Or.inr (Or.inl h)
+      · exact Or.inr (Or.inr h)
+
+/-- the closer runs: it resumes the body, or goes on inside the close callback -/
+theorem stepInClose_InvB {cfg : Cfg} {s : St} (i : InvB s) (t : Tid) (b : Bool)
+    (hrun : s.status t = .ready ∨ s.status t = .cancelled) (hbs : b = false → s.status t = .ready) :
+    InvB (stepInClose cfg s t b) := by
+  unfold stepInClose
+  split
+  · rename_i t' pc c hs
+    split
+    · rename_i htt; subst htt
+      obtain ⟨hprog, hpc1, hpc5, _, _, cok⟩ := i.bst t' pc c hs
+      have hnw : ∀ y, s.status t' ≠ .waitT y := by
+        intro y hy; rcases hrun with h | h <;> rw [h] at hy <;> simp at hy
+      have halive : alive (s.status t') = true := by rcases hrun with h | h <;> rw [h] <;> rfl
+      unfold resumeClose
+      apply execClose_InvB
+      -- the state in which the body resumes: the closer is running again
+      have hst : ∀ y, (s.setStatus t' .ready).status y = if y = t' then .ready else s.status y := fun _ => rfl
+      have base : PreB (s.setStatus t' .ready) t' c pc := by
+        refine ⟨?_, ?_, ?_, ?_, by rw [hst]; simp, cok, ?_, ?_⟩
+        · intro y hy
+          show allowed y (s.prog y) = true
+          rw [hst] at hy
+          by_cases hyt : y = t'
+          · rw [hyt]; exact i.typ t' halive
+          · simp only [hyt, if_false] at hy; exact i.typ y hy
+        · intro y hy; rw [hst] at hy
+          by_cases hyt : y = t'
+          · simp [hyt] at hy
+          · simp only [hyt, if_false] at hy; exact i.waitq y hy
+        · intro y z hy; rw [hst] at hy
+          by_cases hyt : y = t'
+          · simp [hyt] at hy
+          · simp only [hyt, if_false] at hy
+            rcases i.waitt y z hy with ⟨pc', c', hb⟩ | h
+            · rw [hs] at hb; injection hb with e _ _; exact absurd e.symm hyt
+            · exact h
+        · rw [hst]; split
+          · simp
+          · exact i.ccan
+        · intro x j hx hj
+          have := i.bdone t' pc c x j hs hx (by
+            by_cases h : j + 1 < pc
+            · exact Or.inl h
+            · exact Or.inr ⟨by omega, hnw⟩)
+          exact okDone_restatus halive (fun _ => rfl) this
+        · intro hr
+          have hr' : s.rStopped = true := hr
+          rcases i.rs hr' with h | h | h
+          · rcases h with ⟨pc', c', hb⟩ | ⟨k, c', hb⟩
+            · rw [hs] at hb; injection hb with e _ _; exact Or.inl e
+            · rw [hs] at hb; contradiction
+          · by_cases hRt : Tid.R = t'
+            · exact Or.inl hRt.symm
+            · right; left; rw [hst]; simp only [hRt, if_false]; exact h
+          · by_cases hRt : Tid.R = t'
+            · exact Or.inl hRt.symm
+            · right; right; rw [hst]; simp only [hRt, if_false]; exact h
+      split
+      · exact PreB.of_bcore (s := s.setStatus t' .ready) rfl base
+      · exact base
+    · exact i
+  · rename_i t' k c hs
+    split
+    · rename_i htt; subst htt
+      obtain ⟨hprog, hst, cok, hall⟩ := i.cb t' k c hs
+      have e : EndB s t' := by
+        refine ⟨i.typ, i.waitq, ?_, i.ccan, hst, contOk_ne_V cok, hall⟩
+        intro y z hy
+        rcases i.waitt y z hy with ⟨pc', c', hb⟩ | h
+        · rw [hs] at hb; contradiction
+        · exact h
+      split
+      · -- cancelled by the user inside the user's own close callback
+        split
+        · exact e.finish (({ s with cstage := .aborted } : St).emit _) ⟨rfl, rfl⟩ (Or.inr rfl)
+        · exact e.finish ({ s with cstage := .aborted } : St) ⟨rfl, rfl⟩ (Or.inr rfl)
+      · rename_i hb
+        have hready : s.status t' = .ready := hbs (by simpa using hb)
+        split
+        · -- the callback returns
+          exact e.runCont hready cok _ ⟨rfl, rfl⟩ rfl
+        · -- one more await inside the callback
+          rename_i k'
+          refine ⟨i.typ, i.waitq, ?_, i.ccan, ?_, ?_, ?_, ?_, ?_, ?_⟩
+          · intro y z hy; right; exact e.waitt y z hy
+          · intro t2 pc c2 hc; exact absurd hc (by simp)
+          · intro t2 pc c2 x hc; exact absurd hc (by simp)
+          · intro t2 pc c2 x j hc; exact absurd hc (by simp)
+          · intro t2 k2 c2 hc
+            have hc' : CStage.cb t' k' c = CStage.cb t2 k2 c2 := hc
+            injection hc' with e1 e2 e3; subst e1 e2 e3
+            exact ⟨hprog, hst, cok, hall⟩
+          · intro hr
+            rcases i.rs hr with h | h | h
+            · rcases h with ⟨pc', c', hb'⟩ | ⟨k2, c', hb'⟩
+              · rw [hs] at hb'; contradiction
+              · rw [hs] at hb'; injection hb' with e1 _ _
+                left; right; exact ⟨k', c, by rw [e1]⟩
+            · exact Or.inr (Or.inl h)
+            · exact Or.inr (Or.inr h)
+          · intro hc; rcases hc with hc | hc <;> exact absurd hc (by simp)
+    · exact i
+  · exact i
+
+/-! ### typing consequences -/
+
+theorem allowed_handler {t : Tid} {n k : Nat} (h : allowed t (.handler n k) = true) : t = .D := by
+  cases t <;> simp [allowed] at h ⊢
+theorem allowed_readerLoop {t : Tid} (h : allowed t .readerLoop = true) : t = .R := by
+  cases t <;> simp [allowed] at h ⊢
+theorem allowed_dispLoop {t : Tid} (h : allowed t .dispLoop = true) : t = .D := by
+  cases t <;> simp [allowed] at h ⊢
+theorem allowed_vget {t : Tid} (h : allowed t .vget = true) : t = .V := by
+  cases t <;> simp [allowed] at h ⊢
+theorem allowed_monStart {t : Tid} (h : allowed t .monStart = true) : t = .L ∨ t = .M := by
+  cases t <;> simp [allowed] at h ⊢
+theorem allowed_monLoop {t : Tid} (h : allowed t .monLoop = true) : t = .L ∨ t = .M := by
+  cases t <;> simp [allowed] at h ⊢
+theorem allowed_closeEntry {t : Tid} {c : Cont} (h : allowed t (.closeEntry c) = true) : t = .C ∧ c = .closingTail := by
+  cases t <;> cases c <;> simp [allowed] at h ⊢
+theorem allowed_recvWait {t : Tid} {u : Nat} (h : allowed t (.recvWait u) = true) : t = .U u := by
+  cases t <;> simp [allowed] at h ⊢; exact h
+theorem allowed_loginWait {t : Tid} {u : Nat} (h : allowed t (.loginWait u) = true) : t = .U u := by
+  cases t <;> simp [allowed] at h ⊢; exact h
+
+/-! ### the steps -/
+
+theorem InvB.wakeGetter {s : St} (i : InvB s) (t : Tid) (ht : t = .D ∨ t = .V) : InvB (s.wakeGetter t) := by
+  unfold St.wakeGetter
+  split
+  · rename_i hw
+    exact i.restatus t .ready (by rw [hw]; rfl) (by intro y; rw [hw]; simp) rfl (by simp) (by simp)
+      (by intro e; rcases ht with h | h <;> rw [h] at e <;> simp at e) (fun _ => Or.inl rfl)
+      (by rw [hw]; simp) (by intro e; rcases ht with h | h <;> rw [h] at e <;> simp at e) (fun _ _ => rfl)
+  · exact i
+
+theorem InvB.put {s : St} (i : InvB s) (m : Nat) : InvB (s.put m) := by
+  unfold St.put
+  refine InvB.wakeGetter ?_ _ (Or.inr rfl)
+  refine InvB.wakeGetter ?_ _ (Or.inl rfl)
+  ib i
+
+theorem InvB.initiateClose {cfg : Cfg} {s : St} (a : InvA cfg s) (r : InvR s) (i : InvB s) : InvB s.initiateClose := by
+  unfold St.initiateClose
+  split
+  · exact i
+  · rename_i h
+    simp only [Bool.or_eq_true, not_or, Bool.not_eq_true] at h
+    have hidle := idle_of_open a h.1
+    have i1 : InvB ({ s with closingTask := true } : St) := InvB.of_bcore (s := s) rfl i
+    exact i1.spawn hidle (r h.1).1 .C _ rfl
+
+theorem InvB.startHeartbeats {s : St} (i : InvB s) (hidle : s.cstage = .idle) (hrs : s.rStopped = false) :
+    InvB s.startHeartbeats := by
+  unfold St.startHeartbeats
+  have i1 : InvB ({ s with pingL := true, pingM := true } : St) := InvB.of_bcore (s := s) rfl i
+  exact (i1.spawn hidle hrs .L .monStart rfl).spawn hidle hrs .M .monStart rfl
+
+theorem InvB.startDispatching {s : St} (i : InvB s) (cfg : Cfg) (hidle : s.cstage = .idle) (hrs : s.rStopped = false) :
+    InvB (s.startDispatching cfg) := by
+  unfold St.startDispatching
+  split
+  · have i1 : InvB ({ s with dispSet := true } : St) := InvB.of_bcore (s := s) rfl i
+    exact i1.spawn hidle hrs .D .dispLoop rfl
+  · exact i
+
+theorem open_of_not_qClosed {cfg : Cfg} {s : St} (a : InvA cfg s) (hq : s.qClosed = false) :
+    s.cstage = .idle ∧ s.closed = false := by
+  have hidle : s.cstage = .idle := by
+    by_cases h : s.cstage = .idle
+    · exact h
+    · have := a.qclosed h; rw [hq] at this; contradiction
+  refine ⟨hidle, ?_⟩
+  cases hc : s.closed with
+  | false => rfl
+  | true => exact absurd hidle (a.closed_iff.mp hc)
+
+theorem stepReader_InvB {cfg : Cfg} {s : St} (a : InvA cfg s) (i : InvB s)
+    (hst : s.status .R = .ready) (hp : s.prog .R = .readerLoop) : InvB (stepReader cfg s) := by
+  have hnc : ¬ isCloser s .R := not_closer_of_prog i (by rw [hp]; simp)
+  unfold stepReader
+  split
+  · exact i.finish .R hnc
+  · split
+    · exact i
+    · split
+      · refine InvB.put ?_ _; ib i
+      · ib i
+      · refine enterClose_InvB ?_ ?_ (by exact hst) (by show s.prog .R ≠ _; rw [hp]; simp) rfl
+        · exact InvA.of_core (s := s) rfl a
+        · ib i
+      · refine enterClose_InvB ?_ ?_ (by exact hst) (by show s.prog .R ≠ _; rw [hp]; simp) rfl
+        · exact InvA.of_core (s := s) rfl a
+        · ib i
+
+theorem dispHandle_InvB {cfg : Cfg} {s : St} (a : InvA cfg s) (r : InvR s) (i : InvB s) (n : Nat)
+    (hst : s.status .D = .ready) (hp : s.prog .D = .dispLoop) (hq : s.qClosed = false) :
+    InvB (dispHandle cfg s n) := by
+  have hnc : ¬ isCloser s .D := not_closer_of_prog i (by rw [hp]; simp)
+  obtain ⟨hidle, hopen⟩ := open_of_not_qClosed a hq
+  unfold dispHandle
+  split
+  · exact InvB.of_bcore (s := s.emit (.msgExit n)) rfl i.emit
+  · exact i.setProg .D _ (fun _ => rfl) hnc
+  · exact enterClose_InvB a i hst (by rw [hp]; simp) rfl
+  · exact InvB.of_bcore (s := (s.initiateClose).emit (.msgExit n)) rfl (InvB.initiateClose a r i).emit
+  · exact InvB.of_bcore (s := s.emit (.msgRaise n)) rfl i.emit
+  · exact InvB.of_bcore (s := ((s.emit (.write .reply)).startHeartbeats).emit (.msgExit n)) rfl
+      ((i.emit (o := .write .reply)).startHeartbeats hidle (r hopen).1).emit
+  · exact enterClose_InvB (a.emit_neutral (o := .write .reply) rfl) (i.emit (o := .write .reply)) hst
+      (by show s.prog .D ≠ _; rw [hp]; simp) rfl
+
+theorem stepDisp_InvB {cfg : Cfg} {s : St} (a : InvA cfg s) (r : InvR s) (i : InvB s)
+    (hst : s.status .D = .ready) (hp : s.prog .D = .dispLoop) : InvB (stepDisp cfg s) := by
+  have hnc : ¬ isCloser s .D := not_closer_of_prog i (by rw [hp]; simp)
+  unfold stepDisp
+  split
+  · exact i.finish .D hnc
+  · rename_i hq
+    have hq' : s.qClosed = false := by simpa using hq
+    obtain ⟨hidle, hopen⟩ := open_of_not_qClosed a hq'
+    split
+    · exact i
+    · split
+      · exact i.restatus .D .waitQ (by rw [hst]; rfl) (by rw [hst]; simp) rfl (by simp) (fun _ => Or.inl rfl) (by simp)
+          (fun h => absurd h hnc) (by rw [hst]; simp) (by simp) (by intro h; rw [hidle] at h; rcases h with h | h <;> contradiction)
+      · rename_i n q _
+        have a1 : InvA cfg ((({ s with queue := q, gone := s.gone ++ [(n, true)] } : St)).emit (.msgEnter n)) :=
+          InvA.of_core (s := s.emit (.msgEnter n)) rfl (a.emit_msgEnter hq' n)
+        have r1 : InvR ((({ s with queue := q, gone := s.gone ++ [(n, true)] } : St)).emit (.msgEnter n)) := by
+          apply InvR.emit; ir r
+        exact dispHandle_InvB a1 r1 (InvB.of_bcore (s := s) rfl i) n hst hp hq'
+
+theorem stepMon_InvB {cfg : Cfg} {s : St} (a : InvA cfg s) (i : InvB s) (b : Bool)
+    (hst : s.status .M = .ready) (hp : s.prog .M = .monLoop) : InvB (stepMon cfg s b) := by
+  unfold stepMon
+  split
+  · split
+    · ib i
+    · exact i.emit
+  · split
+    · ib i
+    · exact enterClose_InvB a i hst (by rw [hp]; simp) rfl
+
+theorem loginResume_InvB {cfg : Cfg} {s : St} (a : InvA cfg s) (r : InvR s) (i : InvB s) (u : Nat)
+    (hst : s.status (.U u) = .ready) (hp : s.prog (.U u) = .loginWait u) : InvB (loginResume cfg s (.U u) u) := by
+  have hnc : ¬ isCloser s (.U u) := not_closer_of_prog i (by rw [hp]; simp)
+  unfold loginResume
+  split
+  · rename_i n _
+    have a1 : InvA cfg ((({ s with vres := none, rcvBusy := false, gone := s.gone ++ [(n, true)] } : St)).emit (.loginReply n)) :=
+      InvA.of_core (s := s.emit (.loginReply n)) rfl (a.emit_neutral rfl)
+    have i1 : InvB ((({ s with vres := none, rcvBusy := false, gone := s.gone ++ [(n, true)] } : St)).emit (.loginReply n)) :=
+      InvB.of_bcore (s := s) rfl i
+    simp only
+    split
+    · rename_i hacc
+      have hopen : s.closed = false := by
+        simp only [Bool.and_eq_true, decide_eq_true_eq, Bool.not_eq_true', Bool.or_eq_false_iff] at hacc
+        exact hacc.2.1
+      have hidle := idle_of_open a hopen
+      have hrs := (r hopen).1
+      have i2 := (i1.startHeartbeats hidle hrs).startDispatching cfg (by show s.cstage = .idle; exact hidle) hrs
+      exact i2.emit.finish _ (by
+        intro hcl
+        rcases hcl with ⟨pc, c, hb⟩ | ⟨k, c, hb⟩
+        · have : s.cstage = .body (.U u) pc c := by
+            have h' := hb
+            simp only [St.emit] at h'
+            unfold St.startDispatching at h'
+            split at h' <;> exact h'
+          rw [hidle] at this; contradiction
+        · have : s.cstage = .cb (.U u) k c := by
+            have h' := hb
+            simp only [St.emit] at h'
+            unfold St.startDispatching at h'
+            split at h' <;> exact h'
+          rw [hidle] at this; contradiction)
+    · exact enterClose_InvB a1 i1 hst (by show s.prog (.U u) ≠ _; rw [hp]; simp) rfl
+  · split
+    · have i1 : InvB ({ s with rcvBusy := false } : St) := InvB.of_bcore (s := s) rfl i
+      exact (i1.emit (o := .ret u .refused)).finish _ hnc
+    · refine enterClose_InvB ?_ ?_ (by exact hst) (by show s.prog (.U u) ≠ _; rw [hp]; simp) rfl
+      · exact InvA.of_core (s := s) rfl a
+      · ib i
+
+theorem stepRun_InvB {cfg : Cfg} {s : St} (a : InvA cfg s) (r : InvR s) (i : InvB s) (t : Tid) :
+    InvB (stepRun cfg s t) := by
+  unfold stepRun
+  have i0 : InvB ({ s with imm := none } : St) := InvB.of_bcore (s := s) rfl i
+  have a0 : InvA cfg ({ s with imm := none } : St) := InvA.of_core (s := s) rfl a
+  have r0 : InvR ({ s with imm := none } : St) := by ir r
+  generalize ({ s with imm := none } : St) = s0 at i0 a0 r0
+  simp only
+  split
+  · -- cancelled
+    rename_i hst
+    have hal : alive (s0.status t) = true := by rw [hst]; rfl
+    have htyp := i0.typ t hal
+    split
+    · rename_i hp
+      exact i0.emit.finish t (not_closer_of_prog i0 (by rw [hp]; simp))
+    · rename_i hp
+      exact i0.finish t (not_closer_of_prog i0 (by rw [hp]; simp))
+    · rename_i u hp
+      have hnc := not_closer_of_prog i0 (show s0.prog t ≠ .inClose by rw [hp]; simp)
+      split
+      · have i1 : InvB ({ s0 with rcvBusy := false } : St) := InvB.of_bcore (s := s0) rfl i0
+        exact (i1.emit (o := .ret u .eoq)).finish t hnc
+      · have i1 : InvB ({ s0 with vres := none, rcvBusy := false, gone := s0.gone ++ s0.vres.toList.map (fun n => (n, false)) } : St) :=
+          InvB.of_bcore (s := s0) rfl i0
+        exact (i1.emit (o := .ret u .cancelled)).finish t hnc
+    · rename_i u hp
+      have htu : t = .U u := allowed_loginWait (by rw [hp] at htyp; exact htyp)
+      have hnc := not_closer_of_prog i0 (show s0.prog t ≠ .inClose by rw [hp]; simp)
+      split
+      · have i1 : InvB ({ s0 with rcvBusy := false } : St) := InvB.of_bcore (s := s0) rfl i0
+        exact (i1.emit (o := .ret u .refused)).finish t hnc
+      · have i1 : InvB ({ s0 with vres := none, rcvBusy := false, gone := s0.gone ++ s0.vres.toList.map (fun n => (n, false)) } : St) :=
+          InvB.of_bcore (s := s0) rfl i0
+        have a1 : InvA cfg ({ s0 with vres := none, rcvBusy := false, gone := s0.gone ++ s0.vres.toList.map (fun n => (n, false)) } : St) :=
+          InvA.of_core (s := s0) rfl a0
+        have i2 := i1.restatus t .ready (by exact hal) (by intro y; show s0.status t ≠ _; rw [hst]; simp) rfl (by simp) (by simp)
+          (by simp) (fun h => absurd h hnc) (fun _ => Or.inr (by intro j; rw [htu]; exact stageOf_user u j))
+          (by intro e; exact absurd (htu ▸ e : Tid.U u = Tid.R) (by simp)) (by intro _ e; exact absurd (htu ▸ e : Tid.U u = Tid.D) (by simp))
+        apply enterClose_InvB
+        · exact InvA.of_core (s := s0) rfl a0
+        · exact i2
+        · show (if t = t then Status.ready else _) = _; simp
+        · show s0.prog t ≠ _; rw [hp]; simp
+        · show contOk t _; rw [htu]; rfl
+    · exact stepInClose_InvB i0 t true (Or.inr hst) (by simp)
+    · rename_i h1 h2 h3 h4 h5
+      exact i0.finish t (not_closer_of_prog i0 h5)
+  · -- ready
+    rename_i hst
+    have hal : alive (s0.status t) = true := by rw [hst]; rfl
+    have htyp := i0.typ t hal
+    split
+    · rename_i hp
+      split
+      · rename_i htR; subst htR; exact stepReader_InvB a0 i0 hst hp
+      · exact i0
+    · rename_i hp
+      split
+      · rename_i htD; subst htD; exact stepDisp_InvB a0 r0 i0 hst hp
+      · exact i0
+    · rename_i n k hp
+      have htD : t = .D := allowed_handler (by rw [hp] at htyp; exact htyp)
+      have hnc := not_closer_of_prog i0 (show s0.prog t ≠ .inClose by rw [hp]; simp)
+      split
+      · have := (i0.emit (o := .msgExit n)).setProg t .dispLoop (fun _ => by rw [htD]; rfl) hnc
+        exact InvB.of_bcore (s := (s0.emit (.msgExit n)).setProg t .dispLoop) rfl this
+      · exact i0.setProg t _ (fun _ => by rw [htD]; rfl) hnc
+    · rename_i hp
+      have hnc := not_closer_of_prog i0 (show s0.prog t ≠ .inClose by rw [hp]; simp)
+      have htm := allowed_monStart (by rw [hp] at htyp; exact htyp)
+      exact i0.setProg t .monLoop (fun _ => by rcases htm with h | h <;> rw [h] <;> rfl) hnc
+    · rename_i hp
+      split
+      · exact InvB.of_bcore (s := s0) (by
+          unfold stepMon; simp only [if_true]; split <;> rfl) i0
+      · split
+        · rename_i htM; subst htM; exact stepMon_InvB a0 i0 false hst hp
+        · exact i0
+    · rename_i c hp
+      obtain ⟨htC, hcc⟩ := allowed_closeEntry (by rw [hp] at htyp; exact htyp)
+      exact enterClose_InvB a0 i0 hst (by rw [hp]; simp) (by rw [htC, hcc]; rfl)
+    · exact stepInClose_InvB i0 t false (Or.inl hst) (fun _ => hst)
+    · rename_i hp
+      have htV : t = .V := allowed_vget (by rw [hp] at htyp; exact htyp)
+      have hnc := not_closer_of_prog i0 (show s0.prog t ≠ .inClose by rw [hp]; simp)
+      split
+      · exact i0.restatus t .waitQ hal (by rw [hst]; simp) rfl (by simp) (fun _ => Or.inr htV) (by simp)
+          (fun h => absurd h hnc) (by rw [hst]; simp) (by intro e; rw [htV] at e; simp at e)
+          (by intro _ e; rw [htV] at e; simp at e)
+      · split
+        · exact i0
+        · refine InvB.finish ?_ t hnc; ib i0
+    · rename_i u hp
+      have hnc := not_closer_of_prog i0 (show s0.prog t ≠ .inClose by rw [hp]; simp)
+      split
+      · rename_i n _
+        have i1 : InvB ({ s0 with vres := none, rcvBusy := false, gone := s0.gone ++ [(n, true)] } : St) :=
+          InvB.of_bcore (s := s0) rfl i0
+        exact (i1.emit (o := .ret u (.msg n))).finish t hnc
+      · have i1 : InvB ({ s0 with rcvBusy := false } : St) := InvB.of_bcore (s := s0) rfl i0
+        split
+        · exact (i1.emit (o := .ret u .eoq)).finish t hnc
+        · exact (i1.emit (o := .ret u .cancelled)).finish t hnc
+    · rename_i u hp
+      have htu : t = .U u := allowed_loginWait (by rw [hp] at htyp; exact htyp)
+      subst htu
+      exact loginResume_InvB a0 r0 i0 u hst hp
+    · exact i0
+  · exact i0
+
+theorem startRecv_InvB {cfg : Cfg} {s : St} (a : InvA cfg s) (r : InvR s) (i : InvB s) (u : Nat) (b : Bool)
+    (hu : s.status (.U u) = .absent) : InvB (startRecv s u b) := by
+  have hdead : alive (s.status (.U u)) = false := by rw [hu]; rfl
+  unfold startRecv
+  split
+  · exact i
+  · split
+    · exact (i.emit (o := .ret u .state)).setStatus_dead _ _ hdead rfl
+    · split
+      · refine InvB.userStart ?_ u _ (by exact hu) (by split <;> simp [allowed]) (by split <;> simp)
+        ib i
+      · split
+        · split
+          · exact (i.emit (o := .ret u .refused)).setStatus_dead _ _ hdead rfl
+          · exact (i.emit (o := .ret u .eoq)).setStatus_dead _ _ hdead rfl
+        · -- the caller waits for a fresh helper task (only possible while the queue is open: no close in progress)
+          rename_i hq
+          obtain ⟨hidle, hopen⟩ := open_of_not_qClosed a (by simpa using hq)
+          have hrs := (r hopen).1
+          have i1 : InvB (({ s with rcvBusy := true } : St).spawn .V .vget) :=
+            (InvB.of_bcore (s := s) rfl i : InvB ({ s with rcvBusy := true } : St)).spawn hidle hrs .V .vget rfl
+          have hw := i1.idle_waitt (by exact hidle)
+          have hst : ∀ y, ((({ s with rcvBusy := true } : St).spawn .V .vget).setStatus (.U u) (.waitT .V)).status y =
+              if y = .U u then .waitT .V else if y = .V then .ready else s.status y := by
+            intro y
+            show (if y = .U u then Status.waitT .V else if y = .V then Status.ready else s.status y) = _
+            rfl
+          apply InvB.of_idle (by exact hidle) _ _ _ _ (by exact hrs)
+          · intro y hy
+            show allowed y (if y = .U u then (if b = true then Prog.loginWait u else Prog.recvWait u) else
+              if y = .V then Prog.vget else s.prog y) = true
+            by_cases hyu : y = .U u
+            · subst hyu; simp only [if_true]; split <;> simp [allowed]
+            · simp only [hyu, if_false]
+              by_cases hyV : y = .V
+              · subst hyV; rfl
+              · simp only [hyV, if_false]
+                apply i.typ
+                have := hy
+                show alive (s.status y) = true
+                have h2 : (if y = .U u then Status.waitT .V else if y = .V then Status.ready else s.status y) = s.status y := by
+                  simp [hyu, hyV]
+                rw [← h2]; exact hy
+          · intro y hy
+            have hy' : (if y = .U u then Status.waitT .V else if y = .V then Status.ready else s.status y) = .waitQ := hy
+            by_cases hyu : y = .U u
+            · simp [hyu] at hy'
+            · by_cases hyV : y = .V
+              · simp [hyu, hyV] at hy'
+              · simp only [hyu, hyV, if_false] at hy'; exact i.waitq y hy'
+          · intro y z hy
+            have hy' : (if y = .U u then Status.waitT .V else if y = .V then Status.ready else s.status y) = .waitT z := hy
+            by_cases hyu : y = .U u
+            · simp only [hyu, if_true] at hy'; injection hy' with e; exact ⟨u, hyu, e.symm⟩
+            · by_cases hyV : y = .V
+              · simp [hyu, hyV] at hy'
+              · simp only [hyu, hyV, if_false] at hy'; exact i.idle_waitt hidle y z hy'
+          · show (if Tid.C = .U u then Status.waitT .V else if Tid.C = .V then Status.ready else s.status .C) ≠ _
+            simp; exact i.ccan
+
+theorem step_InvB {cfg : Cfg} {s : St} (a : InvA cfg s) (r : InvR s) (i : InvB s) (ev : Ev) : InvB (step cfg s ev) := by
+  cases ev with
+  | connect =>
+    simp only [step]
+    split
+    · exact i
+    · rename_i h
+      simp only [bne_iff_ne, ne_eq, Bool.or_eq_true, decide_eq_true_eq, not_or, Decidable.not_not, Bool.not_eq_true] at h
+      have hidle := idle_of_open a h.2
+      have hrs := (r h.2).1
+      have i1 := i.spawn hidle hrs .R .readerLoop rfl
+      split
+      · exact i1.startDispatching cfg (by exact hidle) hrs
+      · exact i1
+  | data fs => ib i
+  | eof => exact InvB.initiateClose a r i
+  | run t =>
+    simp only [step]
+    split
+    · exact stepRun_InvB a r i t
+    · exact i
+  | callClose u =>
+    simp only [step]
+    split
+    · exact i
+    · rename_i hu
+      have hu' : s.status (.U u) = .absent := by simpa using hu
+      have i1 := i.userStart u .idle hu' rfl (by simp)
+      apply enterClose_InvB
+      · exact InvA.of_core (s := s) rfl a
+      · exact i1
+      · show (if Tid.U u = .U u then Status.ready else _) = _; simp
+      · show (if Tid.U u = .U u then Prog.idle else _) ≠ _; simp
+      · rfl
+  | callInitiateClose => exact InvB.initiateClose a r i
+  | callLogout =>
+    simp only [step]
+    refine InvB.initiateClose (cfg := cfg) ?_ ?_ ?_
+    · exact InvA.of_core (s := s.emit (.write .logout)) rfl (a.emit_neutral rfl)
+    · have := r.emit (o := .write .logout); ir this
+    · exact InvB.of_bcore (s := s) rfl i
+  | callRecv u =>
+    simp only [step]
+    split
+    · exact i
+    · rename_i hu
+      exact startRecv_InvB a r i u false (by simpa using hu)
+  | callRecvNowait u =>
+    simp only [step]
+    split
+    · exact i
+    · split
+      · exact i.emit
+      · split
+        · exact InvB.of_bcore (s := s) rfl i
+        · split <;> exact i.emit
+  | callLogin u =>
+    simp only [step]
+    split
+    · exact i
+    · rename_i hu
+      simp only [bne_iff_ne, ne_eq, Bool.or_eq_true, decide_eq_true_eq, not_or, Decidable.not_not] at hu
+      refine startRecv_InvB (cfg := cfg) ?_ ?_ ?_ u true (by exact hu.1.1)
+      · exact InvA.of_core (s := s.emit (.write .login)) rfl (a.emit_neutral rfl)
+      · have := r.emit (o := .write .login); ir this
+      · exact InvB.of_bcore (s := s) rfl i
+  | callSend => exact InvB.of_bcore (s := s) rfl i
+  | cancel u =>
+    simp only [step]
+    unfold St.cancelTask
+    split
+    · rename_i hst
+      exact i.restatus (.U u) .cancelled (by rw [hst]; rfl) (by rw [hst]; simp) rfl (by simp) (by simp) (by simp)
+        (fun _ => Or.inr rfl) (by rw [hst]; simp) (by simp) (by simp)
+    · rename_i hst
+      rcases i.waitq _ hst with h | h <;> simp at h
+    · rename_i w hst
+      split
+      · rename_i hw
+        -- the awaited task is ready: it is the receive helper (a closer's target would already be cancelled)
+        have hV : w = .V := by
+          rcases i.waitt _ _ hst with ⟨pc, c, hb⟩ | ⟨u', _, h⟩
+          · have := (i.bwait _ pc c w hb hst).2; rw [hw] at this; simp at this
+          · exact h
+        subst hV
+        have hncV : ¬ isCloser s .V := by
+          rintro (⟨pc, c, hb⟩ | ⟨k, c, hb⟩)
+          · exact absurd (i.bst _ pc c hb).2.2.2.2.2 (by simp [contOk]; cases c <;> simp [contOk])
+          · exact absurd (i.cb _ k c hb).2.2.1 (by cases c <;> simp [contOk])
+        exact i.restatus .V .cancelled (by rw [hw]; rfl) (by rw [hw]; simp) rfl (by simp) (by simp) (by simp)
+          (fun h => absurd h hncV) (by rw [hw]; simp) (by simp) (by simp)
+      · rename_i hw
+        have hV : w = .V := by
+          rcases i.waitt _ _ hst with ⟨pc, c, hb⟩ | ⟨u', _, h⟩
+          · have := (i.bwait _ pc c w hb hst).2; rw [hw] at this; simp at this
+          · exact h
+        subst hV
+        have hncV : ¬ isCloser s .V := by
+          rintro (⟨pc, c, hb⟩ | ⟨k, c, hb⟩)
+          · exact absurd (i.bst _ pc c hb).2.2.2.2.2 (by cases c <;> simp [contOk])
+          · exact absurd (i.cb _ k c hb).2.2.1 (by cases c <;> simp [contOk])
+        exact i.restatus .V .cancelled (by rw [hw]; rfl) (by rw [hw]; simp) rfl (by simp) (by simp) (by simp)
+          (fun h => absurd h hncV) (by rw [hw]; simp) (by simp) (by simp)
+      · exact i
+    · exact i
+
+theorem InvB.init : InvB {} :=
+  InvB.of_idle rfl (by intro t h; simp [alive] at h) (by intro t h; simp at h) (by intro t y h; simp at h) (by simp) rfl
+
+/-- **Invariants A, R and B hold together in every reachable state.** -/
+theorem runEvs_InvARB (cfg : Cfg) (evs : List Ev) :
+    InvA cfg (runEvs cfg {} evs) ∧ InvR (runEvs cfg {} evs) ∧ InvB (runEvs cfg {} evs) := by
+  have : ∀ (s : St), InvA cfg s → InvR s → InvB s →
+      InvA cfg (runEvs cfg s evs) ∧ InvR (runEvs cfg s evs) ∧ InvB (runEvs cfg s evs) := by
+    induction evs with
+    | nil => intro s a r i; exact ⟨a, r, i⟩
+    | cons ev evs ih => intro s a r i; exact ih _ (step_InvA a ev) (step_InvR a r ev) (step_InvB a r i ev)
+  exact this _ (InvA.init cfg) InvR.init InvB.init
 
 end NasdaqModel.Sess
